@@ -155,7 +155,7 @@ class StubSelector:
 class FakeSocket(socket.socket):
     """A real (never connected) socket object whose I/O methods are scripted; used under SocketStreamTransport."""
 
-    def __init__(self, env: Env, incoming=b"", eof_after: bool = True):
+    def __init__(self, env: Env, incoming=b"", eof_after: bool = True, eof_once: bool = False):
         super().__init__(socket.AF_INET, socket.SOCK_STREAM)
         self.env = env
         self.wire = []  # bytes accepted by the "kernel", in order
@@ -164,12 +164,14 @@ class FakeSocket(socket.socket):
         self.rpos = 0
         self.eof_after = eof_after
         env.ready_possible = self._ready_possible
+        self.eof_once = eof_once
+        self.eof_returned = False
 
     def _ready_possible(self, event):
         # write side: a writable socket always accepts something; read side: data left, or EOF pending
         if event == selectors.EVENT_WRITE:
             return True
-        return self.rpos < len(self.incoming) or self.eof_after
+        return self.rpos < len(self.incoming) or (self.eof_after and not (self.eof_once and self.eof_returned))
 
     def really_close(self):
         socket.socket.close(self)
@@ -219,7 +221,8 @@ class FakeSocket(socket.socket):
         env.tick()
         left = len(self.incoming) - self.rpos
         if left == 0:
-            if self.eof_after:
+            if self.eof_after and not (self.eof_once and self.eof_returned):
+                self.eof_returned = True
                 return b""
             raise BlockingIOError(11, "would block")
         if env.decide_eagain():
